@@ -39,6 +39,11 @@ CHECKS = {
                 text='routing contracts of transfer/input/output evaluated with all m parties running the real coroutines in one process over every enumerated '
                      'sender set, receiver set, graph (dict/pairs), int argument and threshold t..2t; found and led to the repair of transfer with an int sender',
                 note=B_NOTE, technique='bounded contract evaluation with all parties executing the real code on a ghost network'),
+    'C08': dict(engine='pyvc+symx-mp', category='other', design_ref='DESIGN.md §5 C08 / §6',
+                text='partial: (a) all splits of a connection\'s byte stream - engine A proves data_received / receive / send for all chunkings (as C10); (b) bounded: seven composite programs with '
+                     'fixed inputs and protocol randomness under seeded random delivery schedules (per-connection FIFO queues, random interleaving across connections and with local computation): '
+                     'every party completes, outputs equal those of immediate delivery, no label reused, network balanced',
+                note='schedules sampled (8 per program and configuration, thorough 40), not enumerated; liveness in general not decided', technique='deductive verification of the framing code + bounded schedule exploration'),
     'C09': dict(engine='symx', category='other', design_ref='DESIGN.md §5 C09',
                 text='partial: per-primitive and per-program send/receive label balance, at-most-once labels per connection and program-counter/level bookkeeping on a ghost '
                      'network with all parties running the real code; global label uniqueness over a whole run (hash collisions) is assumed, not decided',
@@ -187,7 +192,6 @@ CHECKS = {
 }
 
 NOT_APPLICABLE = {
-    'C08': 'quantifies over event-loop interleavings, delivery schedules and liveness; contracts speak about one call or one data structure (DESIGN.md §6)',
 }
 NOT_BUILT_YET = 'check not built yet in the time used so far; design in DESIGN.md §5'
 ALL = ['C%02d' % i for i in range(1, 40)]
